@@ -127,6 +127,16 @@ func genAlt(t *rapid.T, label string, allowSubstvar bool) AltAST {
 		return AltAST{Substvar: true, Name: name}
 	}
 	a := AltAST{Name: genPkgName(t, label+"name")}
+	if rapid.IntRange(0, 29).Draw(t, label+"longname") == 0 {
+		// names beyond small fixed-size buffers (dependency fields only: these names never become
+		// file names)
+		n := rapid.SampledFrom([]int{31, 32, 33, 63, 64, 65, 127, 129, 255, 300}).Draw(t, label+"longlen")
+		b := []byte("lib")
+		for len(b) < n {
+			b = append(b, "abcdefghijklmnopqrstuvwxyz0123456789+.-"[rapid.IntRange(0, 38).Draw(t, label+"lc")])
+		}
+		a.Name = string(b)
+	}
 	if rapid.IntRange(0, 3).Draw(t, label+"q") == 0 {
 		switch rapid.IntRange(0, 3).Draw(t, label+"qk") {
 		case 0, 1:
